@@ -77,12 +77,12 @@ theorem opIdle_spec (c : Cfg) (s : St) (arr : List (Nat × Bytes)) (hc : s.close
 /-! ### write -/
 
 theorem finish_writeSt_open (c : Cfg) (tmo : Nat) (r : WaitRes) (s1 : St) (rest : List Ev) (rd' : Reader) (tEnd : Nat)
-    (h : ¬ (r = .timeout ∧ ¬ tmo < ackTimeoutMs)) :
+    (h : ¬ (r = .timeout ∧ ¬ tmo ≤ ackTimeoutMs)) :
     (writeSt tmo r s1).finish c rest rd' tEnd = s1.finish c rest rd' tEnd := by
   unfold writeSt; rw [if_neg h]
 
 theorem finish_writeSt_closed (c : Cfg) (tmo : Nat) (r : WaitRes) (s1 : St) (rest : List Ev) (rd' : Reader) (tEnd : Nat)
-    (h : r = .timeout ∧ ¬ tmo < ackTimeoutMs) :
+    (h : r = .timeout ∧ ¬ tmo ≤ ackTimeoutMs) :
     ((writeSt tmo r s1).finish c rest rd' tEnd).closed = true ∧
     ((writeSt tmo r s1).finish c rest rd' tEnd).out = s1.out := by
   unfold writeSt; rw [if_pos h]; simp [St.finish]
@@ -94,7 +94,7 @@ theorem opWrite_spec (c : Cfg) (s : St) (data : Bytes) (tmo : Nat) (arr : List (
     (opWrite c s data tmo arr).2.1 ≤ s.now + min tmo ackTimeoutMs ∧
     ((opWrite c s data tmo arr).2.2.closed = true ↔
       (waitRef (ackMatch c data) (s.queue ++ visible (s.now + min tmo ackTimeoutMs) (timeline s arr)) = .timeout
-        ∧ ¬ tmo < ackTimeoutMs)) ∧
+        ∧ ¬ tmo ≤ ackTimeoutMs)) ∧
     ((opWrite c s data tmo arr).2.2.closed = false →
       (opWrite c s data tmo arr).2.2.out = s.out ++ (s.now, diagReq c data) :: outOf c (timeline s arr) ∧
       QueueAfter (ackMatch c data)
@@ -117,7 +117,7 @@ theorem opWrite_spec (c : Cfg) (s : St) (data : Bytes) (tmo : Nat) (arr : List (
     unfold writeSt; split <;> exact this
   refine ⟨by rw [h1], hnow, ?_, ?_⟩
   · by_cases hto : (wait c (ackMatch c data) (s.now + min tmo ackTimeoutMs) (s.sent (diagReq c data))
-        (timeline s arr)).1 = .timeout ∧ ¬ tmo < ackTimeoutMs
+        (timeline s arr)).1 = .timeout ∧ ¬ tmo ≤ ackTimeoutMs
     · have := (finish_writeSt_closed c tmo _ (wait c (ackMatch c data) (s.now + min tmo ackTimeoutMs)
         (s.sent (diagReq c data)) (timeline s arr)).2.1 (wait c (ackMatch c data) (s.now + min tmo ackTimeoutMs)
         (s.sent (diagReq c data)) (timeline s arr)).2.2 (s.rd.run (shift s.now arr)).1 (lastT s.now arr) hto).1
@@ -126,7 +126,7 @@ theorem opWrite_spec (c : Cfg) (s : St) (data : Bytes) (tmo : Nat) (arr : List (
       exact ⟨fun h => Bool.noConfusion h, fun h => absurd h hto⟩
   · intro hopen
     by_cases hto : (wait c (ackMatch c data) (s.now + min tmo ackTimeoutMs) (s.sent (diagReq c data))
-        (timeline s arr)).1 = .timeout ∧ ¬ tmo < ackTimeoutMs
+        (timeline s arr)).1 = .timeout ∧ ¬ tmo ≤ ackTimeoutMs
     · have := (finish_writeSt_closed c tmo _ (wait c (ackMatch c data) (s.now + min tmo ackTimeoutMs)
         (s.sent (diagReq c data)) (timeline s arr)).2.1 (wait c (ackMatch c data) (s.now + min tmo ackTimeoutMs)
         (s.sent (diagReq c data)) (timeline s arr)).2.2 (s.rd.run (shift s.now arr)).1 (lastT s.now arr) hto).1
